@@ -94,6 +94,7 @@ claim('C18',
       'Trusted: python ast, E1/E2, the recognised expression shapes; an unrecognised shape is an ANALYSIS-ERROR.')
 
 _pending = 'check not built yet in this round (design in DESIGN.md section 3); will be claimed when its rules run clean'
-for _p in ['C01', 'C02', 'C03', 'C04', 'C05', 'C06', 'C07', 'C09', 'C10', 'C11', 'C14',
-           'C17', 'C18', 'C19', 'C20']:
-    na(_p, _pending)
+for _n in range(1, 21):
+    _p = f'C{_n:02d}'
+    if _p not in CLAIMED:
+        na(_p, _pending)
